@@ -1,8 +1,8 @@
-"""C10, single-file targets (the checked-out path itself becomes the link).  ORACLE ONLY: the Coq model
-Model/ObjCheckout.v covers directory targets; a file target goes through the ROOT key of hashfile/diff.py with
-no old meta (fs.iscopy, always-relink), which the model leaves out.  Judged on the real run: bytes, link kind,
-idempotence, cache bytes, and the saved link record (inode half = lstat inode of the path, mtime half = the
-token get_mtime_and_size gives for the path)."""
+"""C10, single-file targets (the checked-out path itself becomes the link): the ROOT key of hashfile/diff.py with
+no old meta (fs.iscopy, always-relink).  Judged by the oracle on the real run - bytes, link kind, idempotence,
+cache bytes, and the saved link record (inode half = lstat inode of the path, mtime half = the token
+get_mtime_and_size gives for the path) - and fed through the model Model/ObjCheckout.v checkout1 (run_in1);
+the inode half of the record is oracle-only (the model has no directory-entry inodes)."""
 
 from __future__ import annotations
 
@@ -11,6 +11,7 @@ import stat
 
 from lib import impl
 
+from props import _objcheckout_common as C
 from props._objcheckout_common import CONTENT_POOL, Clock, cbytes_of, md5hex, obj_path, snap_cache
 
 KINDS = ("copy", "hardlink", "symlink")
@@ -40,9 +41,9 @@ def _snap(path):
     try:
         st = os.stat(path)
         with open(path, "rb") as f:
-            out.update(bytes=f.read(), ino=st.st_ino, nlink=st.st_nlink, mtime=st.st_mtime)
+            out.update(bytes=f.read(), ino=st.st_ino, nlink=st.st_nlink, mtime=st.st_mtime, broken=False)
     except FileNotFoundError:
-        out.update(bytes=None, ino=None, nlink=0, mtime=None)
+        out.update(bytes=None, ino=None, nlink=0, mtime=None, broken=True)
     return out
 
 
@@ -80,21 +81,34 @@ def run_single(ctx, case):
     tb = contents[case["target"]]
     obj = odb.get(md5hex(tb))
 
+    saved = []
+    if state is not None:
+        real_set = state.set_link
+
+        def set_obs(p, ino, mtime):
+            saved.append((p, ino, mtime))
+            return real_set(p, ino, mtime)
+
+        state.set_link = set_obs
+
     def call(relink):
+        del saved[:]
         try:
             r = co.checkout(path, localfs, obj, odb, force=True, relink=relink, state=state, quiet=True)
             return ("none",) if r is None else ("ret", bool(r))
         except Exception as exc:  # noqa: BLE001
             return ("exc", type(exc).__name__ + ": " + str(exc)[:160])
 
-    c0 = snap_cache(cache)
+    s0, c0 = _snap(path), snap_cache(cache)
     out1 = call(case["relink"])
+    rec_1 = list(saved)
     s1, c1 = _snap(path), snap_cache(cache)
     row = None
     if state is not None:
         with state.links as ref:
             row = ref[os.path.relpath(path, root)] if os.path.relpath(path, root) in ref else None
     out2 = call(False)
+    rec_2 = list(saved)
     s2, c2 = _snap(path), snap_cache(cache)
     if state is not None:
         state.close()
@@ -133,8 +147,25 @@ def run_single(ctx, case):
     for cb, ca, tag in ((c0, c1, "call1"), (c1, c2, "call2")):
         if {o: v["bytes"] for o, v in cb.items()} != {o: v["bytes"] for o, v in ca.items()}:
             problems.append(("C10:single:cache-bytes-changed", f"{tag}: the byte snapshot of the cache changed"))
+    # ---- the same two calls through the model (checkout1)
+    links = C.tested_links(case["types"], cache, wsd)
+    mcase = {"force": True, "prompt": "none", "types": case["types"], "state": case["state"], "target": {"": case["target"]}}
+    items = []
+    for (before, after, cb, ca, out, rec, relink, n) in ((s0, s1, c0, c1, out1, rec_1, case["relink"], 1), (s1, s2, c1, c2, out2, rec_2, False, 2)):
+        wsb = {} if before is None else {"": before}
+        wsa = {} if after is None else {"": after}
+        enc = C.Enc(cache, cb, wsb)
+        o = ("exc", out[1]) if out[0] == "exc" else out
+        if rec:
+            cand = [m for m in ([v["mtime"] for v in cb.values()] + [x["mtime"] for x in (before, after) if x and x["mtime"] is not None])
+                    if str(round(m * 1_000_000_000)) == rec[-1][2]]
+            recv = C.vL([C.vL([C.vL([C.vB(""), C.vN(enc.mtime(cand[0]) if cand else 999999)])])])
+        else:
+            recv = C.vL([])
+        exp = C.vL([C.outcome_val(o), enc.ws_val(wsa), recv, enc.cache_val(ca)])
+        items.append(({"case": case, "call": n}, C.input_term(mcase, enc, links, relink, cb, wsb, contents, []), exp))
     impl.rm_rf(root)
-    return problems, (out1, out2), out1[0] != "none"
+    return problems, (out1, out2), out1[0] != "none", items
 
 
 def run_singles(ctx, n):
@@ -142,9 +173,11 @@ def run_singles(ctx, n):
               for cls, ty, rl, pr in (("local", "symlink", False, None), ("base", "symlink", True, ["A", "copy"]),
                                       ("local", "hardlink", True, ["B", "symlink"]), ("base", "copy", True, ["A", "hardlink"]))]
     k = 0
+    items = []
     for i in range(n + len(corpus)):
         case = corpus[i] if i < len(corpus) else gen_single(ctx.rng)
-        problems, outs, nontrivial = run_single(ctx, case)
+        problems, outs, nontrivial, its = run_single(ctx, case)
+        items.extend(its)
         ctx.case(case, nontrivial)
         ctx.count("single:type:" + case["types"][0])
         ctx.count("single:prior:" + ("absent" if case["prior"] is None else case["prior"][1]))
@@ -152,9 +185,10 @@ def run_singles(ctx, n):
             ctx.oracle_fail(sig, what, case)
         k += 1
     ctx.obligation("oracle:single-file-targets", not any(v.kind == "oracle" and v.signature.startswith("C10:single") for v in ctx.violations),
-                   f"{k} single-file-target checkouts judged by the oracle only (bytes, link kind, idempotence, cache bytes, link record)")
+                   f"{k} single-file-target checkouts judged by the oracle (bytes, link kind, idempotence, cache bytes, link record)")
+    ctx.correspond("checkout_single_file", C.IMPORTS, "co_in", "fun i => enc_result (run_in1 i)", items, shard=60)
 
 
 def replay(ctx, case):
-    problems, outs, _ = run_single(ctx, case)
+    problems, outs, _, _ = run_single(ctx, case)
     return {"outcomes": outs, "problems": problems, "violates": bool(problems)}
